@@ -15,6 +15,9 @@ def make_sim(name: str) -> Simulator:
     if name == "simr":
         from sims.simr import SimR
         return SimR()
+    if name == "sima":
+        from sims.sima import SimA
+        return SimA()
     raise HarnessError(f"unknown simulator {name}")
 
 
@@ -63,6 +66,14 @@ for _p, _profiles in {"C06": ["control"], "C07": ["control", "run"], "C08": ["co
 _add(CheckSpec(property="C27", sim="simr", profiles=["faulty", "faulty", "faultfree"], runs_quick=400, runs_thorough=40000,
                level="fault_enumeration", rule="(filled)", assumptions=["(filled)"], wall_quick=50, wall_thorough=1500,
                run_timeout=120))
+
+
+for _p, _profiles, _lvl in [("C28", ["runs"], "fault_enumeration"), ("C29", ["runs"], "exploration"),
+                            ("C30", ["runs"], "exploration"), ("C31", ["saves"], "exploration"),
+                            ("C35", ["errorlog"], "exploration"), ("C37", ["users"], "exploration"),
+                            ("C38", ["ids"], "exploration")]:
+    _add(CheckSpec(property=_p, sim="sima", profiles=_profiles, runs_quick=1500, runs_thorough=200000, level=_lvl,
+                   rule="(filled)", assumptions=["(filled)"], wall_quick=50, wall_thorough=1500, run_timeout=60))
 
 
 def get_spec(prop: str) -> CheckSpec:
